@@ -39,7 +39,12 @@ RateIntegral(e) == e.d = 0 \/ OrderM(e) % e.d = 0
 SumSeq(s) == LET RECURSIVE F(_)
                  F(j) == IF j = 0 THEN 0 ELSE s[j] + F(j - 1)
              IN F(Len(s))
-Out(q, x, z) == IF OrderM(E[q]) = 0 THEN x[E[q].s] ELSE z[q][OrderM(E[q])]
+(* a delayed edge without spread and without dde_approx is a plain discrete delay: it delivers the source value of d
+   steps ago (0 before the start), as in Solver.tla; rec holds x_0 .. x_{i-1}, x is x_i *)
+IsDiscrete(e) == e.d > 0 /\ ~HasSpread(e) /\ cs.cfg.approx = 0
+PastX(n, d, x) == LET j == i - d IN IF j < 0 THEN 0 ELSE IF j = i THEN x[n] ELSE rec[j + 1][n]
+Out(q, x, z) == IF IsDiscrete(E[q]) THEN PastX(E[q].s, E[q].d, x)
+                ELSE IF OrderM(E[q]) = 0 THEN x[E[q].s] ELSE z[q][OrderM(E[q])]
 StepX(x, z) == [n \in Nodes |-> x[n] + M.c[n] + M.a[n] * x[n]
                                + SumSeq([q \in 1..Len(E) |-> IF E[q].t = n THEN E[q].w * Out(q, x, z) ELSE 0])]
 StepZ(x, z) == [q \in 1..Len(E) |-> [k \in 1..OrderM(E[q]) |->
@@ -74,7 +79,19 @@ Done == i = cs.cfg.steps
 ClassD36 == ~cs.cfg.vec /\ \E p, q \in 1..Len(E) : p < q /\ E[p].s = E[q].s /\ E[p].t = E[q].t /\ E[p].d > 0 /\ E[q].d > 0
 ClassD50 == cs.cfg.vec /\ \E p, q \in 1..Len(E) : p < q /\ E[p].s = E[q].s /\ E[p].d > 0 /\ E[q].d > 0
                           /\ \A n \in Nodes : n # E[p].s => M.kind[n] # M.kind[E[p].s]
-Export == Done => PrintT(<<"CASE", ToJson([m |-> M, cfg |-> cs.cfg, rows |-> rec, d36 |-> ClassD36, d50 |-> ClassD50,
+(* D59: a source variable (after vectorisation: every node of the kind) that feeds both a distributed-delay edge and a plain
+   discrete-delay edge - the discrete delay is dropped, the edge lost, or KeyError('spread'), depending on order and
+   vectorisation; D06 (C09): an undelayed edge next to a discrete-delay edge of the same source variable *)
+SameSrcVar(p, q) == IF cs.cfg.vec THEN M.kind[E[p].s] = M.kind[E[q].s] ELSE E[p].s = E[q].s
+ClassD59 == \E p, q \in 1..Len(E) : p # q /\ SameSrcVar(p, q) /\ IsDiscrete(E[p]) /\ E[q].d > 0 /\ ~IsDiscrete(E[q])
+ClassD06 == \E p, q \in 1..Len(E) : p # q /\ SameSrcVar(p, q) /\ IsDiscrete(E[p]) /\ E[q].d = 0
+(* layer P: _add_edge_buffer takes ONE branch (kernel chains or ring buffer) per source variable *)
+GroupHasKernel(q) == \E p \in 1..Len(E) : SameSrcVar(p, q) /\ E[p].d > 0 /\ ~IsDiscrete(E[p])
+BranchP(q) == IF "OneBranchPerSourceVariable" \in Dev /\ GroupHasKernel(q) THEN "ode" ELSE (IF IsDiscrete(E[q]) THEN "ring" ELSE "ode")
+DiscreteKeepsItsDelay == \A q \in 1..Len(E) : IsDiscrete(E[q]) => BranchP(q) = "ring"
+HasDiscrete == \E q \in 1..Len(E) : IsDiscrete(E[q])
+Export == Done => PrintT(<<"CASE", ToJson([m |-> M, cfg |-> cs.cfg, rows |-> rec, d36 |-> ClassD36, d50 |-> ClassD50, d59 |-> ClassD59,
+                                            d06 |-> ClassD06, discrete |-> HasDiscrete,
                                             orders |-> [q \in 1..Len(E) |-> OrderM(E[q])], rates |-> [q \in 1..Len(E) |-> RateM(E[q])]])>>)
 
 (* ----------------------------- case generators ----------------------------- *)
@@ -83,9 +100,10 @@ Ed(s, t, w, d, s2) == [s |-> s, t |-> t, w |-> w, d |-> d, s2 |-> s2]
      1: (2, 1)       n = 4, r = 2      2: (2, 49/25)  n = 2, r = 1      3: (4, 4)   n = 4, r = 1 (same order as 1, other rate)
      4: (3, 1)       n = 9, r = 3      5: (2, 16/25)  n = 6, r = 3      6: (2, 9/4) n = 2 (1.78 rounds up), r = 1
      7: (4, 2)       n = 8, r = 2      8: (3, 3)      n = 3, r = 1      9: no delay
-    10: (2, 361/400) n = 4 (4.43), r = 2 - same kernel as 1 from another spread      11: (6, 6) n = 6, r = 1 *)
+    10: (2, 361/400) n = 4 (4.43), r = 2 - same kernel as 1 from another spread      11: (6, 6) n = 6, r = 1
+    12: (2, none) and 13: (3, none): plain discrete delays of 2 and 3 steps (no kernel) *)
 Kernels == << <<2, <<1, 1>>>>, <<2, <<49, 25>>>>, <<4, <<4, 1>>>>, <<3, <<1, 1>>>>, <<2, <<16, 25>>>>, <<2, <<9, 4>>>>, <<4, <<2, 1>>>>, <<3, <<3, 1>>>>,
-             <<0, <<0, 1>>>>, <<2, <<361, 400>>>>, <<6, <<6, 1>>>> >>
+             <<0, <<0, 1>>>>, <<2, <<361, 400>>>>, <<6, <<6, 1>>>>, <<2, <<0, 1>>>>, <<3, <<0, 1>>>> >>
 WeightAt(q) == <<2, 6, -4>>[q]
 Net(kinds, el) == [n |-> 4, c |-> <<2, 0, 0, 0>>, a |-> <<0, 1, 0, -1>>, x0 |-> <<0, 1, 0, 7>>, kind |-> kinds,
                    edges |-> [q \in 1..Len(el) |-> Ed(el[q][1], el[q][2], WeightAt(q), Kernels[el[q][3]][1], Kernels[el[q][3]][2])]]
